@@ -47,6 +47,9 @@ type page struct {
 	beeps  int
 	clears int
 	bad    string
+	// the page's default colours (learnt from the first full repaint, before any SetStyle)
+	defFg, defBg int
+	haveDef      bool
 }
 
 func argInt(a interface{}) int {
@@ -315,10 +318,21 @@ func (w *ww) compare(when string) {
 			var why string
 			for _, st := range append([]lm.Style{g.St}, g.AltSt...) {
 				why = ""
-				if v, k := wantColor(st.Fg); k && c.fg != v {
-					why = fmt.Sprintf("foreground #%06x, expected #%06x", c.fg, v)
-				} else if v, k := wantColor(st.Bg); k && c.bg != v {
-					why = fmt.Sprintf("background #%06x, expected #%06x", c.bg, v)
+				// the default colour is the page's own default, whatever the
+				// screen style's colours are (those apply to unstyled cells,
+				// whose model style is then the screen style itself)
+				wantFg, kFg := wantColor(st.Fg)
+				wantBg, kBg := wantColor(st.Bg)
+				if st.Fg == tcell.ColorDefault && w.pg.haveDef {
+					wantFg, kFg = w.pg.defFg, true
+				}
+				if st.Bg == tcell.ColorDefault && w.pg.haveDef {
+					wantBg, kBg = w.pg.defBg, true
+				}
+				if kFg && c.fg != wantFg {
+					why = fmt.Sprintf("foreground #%06x, expected #%06x", c.fg, wantFg)
+				} else if kBg && c.bg != wantBg {
+					why = fmt.Sprintf("background #%06x, expected #%06x", c.bg, wantBg)
 				} else if c.attrs != int(st.Attrs) {
 					why = fmt.Sprintf("attribute bits %07b, expected %07b", c.attrs, int(st.Attrs))
 				} else if c.us != int(st.Ul) {
@@ -464,6 +478,11 @@ func runDrawHistory(t *rapid.T) {
 		w.scr.SetSize(w0, h0)
 		w.m.Resize(w0, h0)
 		w.scr.Sync()
+		if len(w.pg.cells) > 0 && w.pg.cells[0].set {
+			// every cell is unstyled and no screen style is set: these are the
+			// page's own default colours
+			w.pg.defFg, w.pg.defBg, w.pg.haveDef = w.pg.cells[0].fg, w.pg.cells[0].bg, true
+		}
 		w.afterShow("Sync", true)
 		for _, o := range ops {
 			if w.fail != nil {
@@ -580,6 +599,11 @@ func runCallbacks(t *rapid.T) {
 				want = fmt.Sprintf("mouse:%d,%d:%d:%d", x, y, bm, mods(sh, al, ct, false))
 			}
 			cbs = append(cbs, cb{name, []interface{}{x, y, btn, sh, al, ct}, want})
+			// the same report again (a double click, the last move of a drag
+			// followed by the click): every callback is its own event
+			for rapid.IntRange(0, 2).Draw(t, "again") == 0 {
+				cbs = append(cbs, cbs[len(cbs)-1])
+			}
 		case 6:
 			start := rapid.Bool().Draw(t, "pstart")
 			want := ""
